@@ -56,6 +56,10 @@ def gen_props(rng, n):
     return props
 
 
+GTYPE_TO_C = {'gint': 'gint', 'guint': 'guint', 'gboolean': 'gboolean', 'gchararray': 'const gchar *', 'gdouble': 'gdouble', 'gpointer': 'gpointer',
+              'GObject': 'GObject *', 'gint64': 'gint64', 'void': 'void'}
+
+
 def gen_signals(rng, n):
     sigs = []
     names = ['changed', 'notify-me', 'button-press-event', 'x', 'item-added', 'closed', 'activate', 'row-changed']
@@ -153,6 +157,10 @@ def gen_objlib(rng):
         quarks.append({'enum': nm, 'func': 'foo_%s_quark' % uscore(nm[3:]), 'domain': 'foo-%s-quark' % uscore(nm[3:]).replace('_', '-'),
                        'has_enum': rng.random() < 0.8, 'members': [('FOO_%s_FAILED' % uscore(nm[3:]).upper(), 0), ('FOO_%s_OTHER' % uscore(nm[3:]).upper(), 1)]})
         own.append(nm)
+    for c in classes:
+        for sg in c['signals']:
+            if rng.random() < 0.5 and sg['return'] in GTYPE_TO_C and all(t in GTYPE_TO_C for t in sg['params']):
+                sg['emitter'] = 'emit_' + sg['name'].replace('-', '_')
     registered = [c['name'] for c in classes] + [f['name'] for f in ifaces if not f['private']] + [b['name'] for b in boxed] + \
                  [e['name'] for e in enums if e['registered']]
     for holder in classes + ifaces:
@@ -161,7 +169,7 @@ def gen_objlib(rng):
                 p['type'] = rng.choice(registered)
                 p['default'] = None
         for sg in holder['signals']:
-            if registered and rng.random() < 0.3:
+            if registered and rng.random() < 0.3 and not sg.get('emitter'):
                 sg['params'].append(rng.choice(registered))
     return {'classes': classes, 'ifaces': ifaces, 'boxed': boxed, 'enums': enums, 'quarks': quarks, 'own': own, 'registered': registered}
 
@@ -208,6 +216,10 @@ def render_objlib(m, rng=None):
             h.append('%s *%s_new (void);' % (nm, us))
         for k in range(c['methods']):
             h.append('void %s_method%d (%s *self, gint x);' % (us, k, nm))
+        for sg in c['signals']:
+            if sg.get('emitter'):
+                ps = [('%s *' % nm, 'self')] + [(GTYPE_TO_C[t], 'a%d' % i) for i, t in enumerate(sg['params'])]
+                h.append(apigen.render_function('%s_%s' % (us, sg['emitter']), GTYPE_TO_C[sg['return']].replace('const ', ''), ps))
         for v in c['vfuncs']:
             if v['first'] == 'self' and c['class_struct'] and rng is not None and rng.random() < 0.6:
                 h.append(apigen.render_function('%s_%s' % (us, v['name']), v['ret'], v['params']))
